@@ -115,6 +115,12 @@ CHECKS = {
             "constructor parameter x alternative value read back by identity; every nested name__param written and "
             "read back from composite and component; every component replaced by name",
             "4/C04", TRUST + "Base arguments come from the repository's ESTIMATOR_TEST_PARAMS fixture."),
+    "C20": ("fault_enumeration", "E3", E3 + " (one malformed aspect injected per call, every cell paired with its valid twin)",
+            "complete matrix of 2538 (entry point, fault class, context) cells: fit/update/predict of 14 forecaster "
+            "programs, four splitters, evaluate, both searches, train/test split, make_reduction: the faulty call must "
+            "raise ValueError/TypeError/NotImplementedError, produce no result and no fitted state, and the twin call "
+            "differing only in the offending aspect must succeed",
+            "4/C20", TRUST + "Contexts are enumerated (3 series x 2 horizons) instead of randomised."),
 }
 
 PENDING_REASON = "check not built yet in this round; planned in DESIGN.md section 4 (engine listed there)"
